@@ -93,6 +93,7 @@ func (c *cache) addTable(storage *storage, table *table) {
 				continue
 			}
 			e.tables.Append(table.id)
+			verifProbe(verifProbeCacheAdd)
 		}
 		return
 	}
@@ -106,6 +107,7 @@ func (c *cache) addTable(storage *storage, table *table) {
 			continue
 		}
 		e.tables.Append(table.id)
+		verifProbe(verifProbeCacheAdd)
 	}
 }
 
@@ -121,6 +123,7 @@ func (c *cache) removeTable(table *table) {
 	for i := range c.filters {
 		e := &c.filters[i]
 		e.tables.Remove(table.id)
+		verifProbe(verifProbeCacheRemove)
 	}
 }
 
